@@ -13,7 +13,8 @@ NAMES = ("a", "b", "c")
 def gen_scopes(depth, tier):
     """-> list of source fragments (lists of statements as text) for one scope"""
     leafs = [lambda n: "%s = 1" % n, lambda n: "%s: int = 2" % n,
-             lambda n: "def %s(b=0, *, c=1):\n    pass" % n, lambda n: "def %s(a, b: int = 3):\n    pass" % n]
+             lambda n: "def %s(b=0, *, c=1):\n    pass" % n, lambda n: "def %s(a, b: int = 3):\n    pass" % n,
+             lambda n: "def %s(c=3, a=5, b=1):\n    pass" % n]
     out = []
     maxlen = 3 if depth == 0 else 2
     for k in range(1, maxlen + 1):
@@ -111,6 +112,15 @@ def features(path, tree):
     return {"shared_name": shared, "def_before": def_before, "kwonly_arg": kwonly, "depth": len(parts), "exists": node is not None}
 
 
+# modules with ordinary, globally unique names: short argument names, receivers, several functions and classes
+EXTRA_MODULES = [
+    "def conv(c=3, kernel=5, stride=1):\n    pass\n",
+    "def fit(s=1, rate=2, e=3):\n    pass\n\n\ndef run(f=1, l=2, x=3):\n    pass\n",
+    "class Net(object):\n    depth: int = 2\n\n    def forward(self, el=1, cl=2, sel=3):\n        pass\n",
+    "width = 1\n\n\nclass Cfg(object):\n    size: int = 3\n    kind = 'k'\n\n\ndef build(cls_name=1, selfish=2, lf=3):\n    pass\n",
+]
+
+
 def spec_resolve(path, tree):
     """independent resolver: scope walk over class bodies, function arguments and assignment targets"""
     scope = tree.body
@@ -200,6 +210,24 @@ def _judge(src):
             kind = "absent-found" if want is None else ("none" if got is None else "wrong-node")
             fails.append((".".join(path), kind, "want %s, got %s" % (want and ast.dump(want)[:60], got is not None and ast.dump(got)[:60]), want is not None))
             continue
+        # replacing a positional argument (with defaults everywhere) changes that argument - annotation and default - and no other
+        if want is not None and isinstance(want, ast.arg) and len(path) == 2:
+            fdef = spec_resolve(path[:1], tree)
+            if isinstance(fdef, ast.FunctionDef) and want in fdef.args.args and len(fdef.args.defaults) == len(fdef.args.args):
+                tree3 = ast_parse(src, skip_docstring_remit=True)
+                rep = ast.parse("%s: int = 77" % path[1]).body[0]
+                try:
+                    rw = RewriteAtQuery(search=list(path), replacement_node=rep)
+                    new3 = rw.visit(tree3)
+                    f3 = spec_resolve(path[:1], new3)
+                    before = [(a.arg, ast.unparse(d)) for a, d in zip(fdef.args.args, fdef.args.defaults)]
+                    after = [(a.arg, ast.unparse(d)) for a, d in zip(f3.args.args, f3.args.defaults)]
+                    expect = [(n_, "77" if n_ == path[1] else d_) for n_, d_ in before]
+                    ann = [a.arg for a in f3.args.args if a.annotation is not None and not any(b.arg == a.arg and b.annotation is not None for b in fdef.args.args)]
+                    if not rw.replaced or after != expect or ann != [path[1]]:
+                        fails.append((".".join(path), "replace-arg", "arguments after %r, expected %r; newly annotated %r" % (after, expect, ann), True))
+                except Exception as e:  # noqa
+                    fails.append((".".join(path), "replace-arg-raise", "%s: %s" % (type(e).__name__, str(e)[:80]), True))
         # replacement replaces that node once and no other
         if want is not None and isinstance(want, (ast.ClassDef,)):
             tree2 = ast_parse(src, skip_docstring_remit=True)
@@ -228,7 +256,7 @@ def check(run, record_expected=False):
         return ded
     scopes = gen_scopes(0, run.tier)
     shared = sorted({"\n\n".join(sc) + "\n" for sc in scopes})
-    srcs = shared + sorted({uniquify(x) for x in shared[:: (3 if run.tier != "thorough" else 1)]})
+    srcs = shared + sorted({uniquify(x) for x in shared[:: (3 if run.tier != "thorough" else 1)]}) + EXTRA_MODULES
     ctx = mp.get_context("fork")
     with ctx.Pool(16) as pool:
         res = pool.map(_judge, srcs, chunksize=16)
